@@ -3,6 +3,7 @@ package conc
 import (
 	"fmt"
 	"math/rand"
+	"os"
 	"runtime"
 	"sort"
 	"strings"
@@ -205,6 +206,7 @@ func runC09(c *eng.Ctx) {
 	runC09ClosePanic(c, next)
 	runC09NestedCreate(c, next)
 	runC09Join(c, next)
+	runRootHandle(c, "C09", next)
 }
 
 func runC09Stress(c *eng.Ctx, next func() (int, bool)) {
@@ -566,6 +568,11 @@ func runC09Sched(c *eng.Ctx, next func() (int, bool)) {
 			if v.Deadlock {
 				c.R.Violation(eng.Violation{Prop: "C09", Clause: "deadlock", Sig: "C09/deadlock:" + innermostGodiFn(v.Dump), Case: idx, CaseID: prog.name, Detail: fmt.Sprintf("program %s under schedule %s: goroutines stuck inside godi:\n%s", prog.name, strings.Join(ts.trace, " "), v.Dump)})
 			} else {
+				if os.Getenv("VERIF_DEBUG_DUMP") != "" {
+					buf := make([]byte, 1<<21)
+					n := runtime.Stack(buf, true)
+					_ = os.WriteFile(fmt.Sprintf("/tmp/c09-inconclusive-%d.txt", idx), append([]byte(prog.name+" "+strings.Join(ts.trace, " ")+"\n\n"), buf[:n]...), 0o644)
+				}
 				c.R.Inconclusive(idx, "controlled schedule did not finish within the watchdog")
 			}
 			c.R.Abandon(idx)
